@@ -646,6 +646,250 @@ def probes_likelihood(ctx, rng):
                               dict(kind="fit", normalizer=name, data=hexl(data)), key="fit-book:%s" % name)
 
 
+# ------------------------------------------------------------------------------------------- fit
+
+class SpyOpt:
+    """stands in for scipy.optimize inside gstools.normalizer.base: records every trial point the objective is
+    called with; mode 'real' forwards to scipy, mode 'fake' is an arbitrary optimiser (random trials, random result)"""
+
+    def __init__(self, real, mode, rng):
+        self.real, self.mode, self.rng = real, mode, rng
+        self.trials, self.x, self.called = [], None, False
+
+    def _run(self, realfn, fun, args, n, kw):
+        from scipy.optimize import OptimizeResult
+        self.called = True
+
+        def f2(par, *a):
+            self.trials.append(np.atleast_1d(np.asarray(par, dtype=float)).copy())
+            return fun(par, *a)
+        if self.mode == "real":
+            out = realfn(f2, args=args, **kw)
+        else:
+            for _ in range(int(self.rng.integers(1, 6))):
+                t = self.rng.normal(0.5, 1.0, n)
+                f2(t if n > 1 else float(t[0]), *args)
+            x = self.rng.normal(0.5, 1.0, n)
+            out = OptimizeResult(x=x if n > 1 else float(x[0]), success=True)
+        self.x = np.atleast_1d(np.asarray(out.x, dtype=float))
+        return out
+
+    def minimize_scalar(self, fun, args=(), **kw):
+        return self._run(self.real.minimize_scalar, fun, args, 1, kw)
+
+    def minimize(self, fun, args=(), **kw):
+        return self._run(self.real.minimize, fun, args, len(np.atleast_1d(kw["x0"])), kw)
+
+
+def fit_classes():
+    N = gn()
+
+    class Tri(N.BoxCoxShift):
+        """a user-defined three-parameter normalizer (supported API): 'alpha' sorts before 'lmbda' and 'shift'"""
+        default_parameter = {"shift": 0, "lmbda": 1, "alpha": 1.0}
+    return [N.BoxCox, N.YeoJohnson, N.Manly, N.BoxCoxShift, Tri, N.LogNormal]
+
+
+def corr_fit(ctx, drv, rng):
+    """fit bookkeeping vs the model's fit_book for recorded real optimiser runs and for arbitrary optimisers, all
+    skip subsets; the property part: skipped parameters untouched, free parameters = optimiser result, dict = state"""
+    import itertools
+    from gstools.normalizer import base as B
+    reps = 3 if ctx.tier == "thorough" else 1
+    real = B.spo
+    try:
+        for cls in fit_classes():
+            names = sorted(cls.default_parameter)
+            subsets = [list(c) for r in range(len(names) + 1) for c in itertools.combinations(names, r)]
+            for skip in subsets:
+                for mode in ("real", "fake"):
+                    for rep in range(reps):
+                        init = {"lmbda": float(rng.uniform(-0.5, 1.5)), "shift": float(rng.uniform(0.5, 2.0)), "alpha": float(rng.normal())}
+                        nz = cls(**{k: init[k] for k in names})
+                        data = np.exp(rng.normal(0.2, 0.4, int(rng.integers(15, 40))))
+                        st0 = np.array([float(getattr(nz, k)) for k in names])
+                        spy = SpyOpt(real, mode, rng)
+                        B.spo = spy
+                        with Quiet():
+                            try:
+                                res = nz.fit(data, skip=list(skip) if rng.random() < 0.8 or skip else None)
+                            except Exception as e:
+                                B.spo = real
+                                ctx.violation("probe: fit raised", "%s.fit(skip=%r) raised %r" % (cls.__name__, skip, e),
+                                              dict(kind="fit", normalizer=cls.__name__, skip=skip, data=hexl(data)), key="fit-raise:%s" % cls.__name__)
+                                continue
+                        B.spo = real
+                        st1 = np.array([float(getattr(nz, k)) for k in names])
+                        mask = np.array([1 if k in skip else 0 for k in names], dtype=np.int64)
+                        nfree = int((mask == 0).sum())
+                        trials = np.array(spy.trials, dtype=float).reshape(len(spy.trials), nfree) if spy.trials else np.zeros((0, 0))
+                        xfin = spy.x if spy.x is not None else np.array([])
+                        if len(names) == 0:
+                            mst, has, mdict = st0, False, np.array([])
+                        else:
+                            mst, has, mdict = drv.call("fit_book", mask, trials, xfin, st0)
+                        ctx.count(("fit-book", cls.__name__, tuple(skip), mode), hist=dict(fn="fit bookkeeping", fit_skip="%d of %d" % (len(skip), len(names)), optimiser=mode))
+                        # the property
+                        pf = []
+                        for i, k in enumerate(names):
+                            if k in skip and not C.bit_equal(st1[i], st0[i]):
+                                pf.append("skipped parameter %s changed from %r to %r" % (k, st0[i], st1[i]))
+                        free = [k for k in names if k not in skip]
+                        if free:
+                            if not C.bit_equal(np.array([st1[names.index(k)] for k in free]), xfin):
+                                pf.append("free parameters %r hold %r but the optimiser returned %r" % (
+                                    free, [st1[names.index(k)] for k in free], xfin.tolist()))
+                            if sorted(res) != names or not C.bit_equal(np.array([float(res[k]) for k in names]), st1):
+                                pf.append("returned dict %r differs from the object state %r" % (res, dict(zip(names, st1.tolist()))))
+                        else:
+                            if res != {} or spy.called or not C.bit_equal(st0, st1):
+                                pf.append("nothing to fit, but fit returned %r / state %r -> %r" % (res, st0.tolist(), st1.tolist()))
+                        okm = C.bit_equal(st1, mst) and (bool(has) == bool(free)) and (not has or C.bit_equal(mdict, st1))
+                        if pf or not okm:
+                            ctx.violation("correspondence: fit bookkeeping" if not pf else "probe: fit bookkeeping",
+                                          "%s.fit(skip=%r) with %s optimiser: %s" % (cls.__name__, skip, mode, "; ".join(pf) or
+                                                                                  "state %r, model %r" % (st1.tolist(), np.asarray(mst).tolist())),
+                                          dict(kind="fit", normalizer=cls.__name__, names=names, skip=skip, optimiser=mode, init=hexl(st0),
+                                               trials=[hexl(t) for t in spy.trials], result=hexl(xfin), state=hexl(st1), data=hexl(data)),
+                                          key="fit-book:%s" % ("skipped-changed" if pf else "model"), no_input=not pf)
+    finally:
+        B.spo = real
+
+
+def fit_data(rng, name, lam0, sh0, n):
+    gen = make(name, lam0, sh0)
+    with Quiet():
+        lo, hi = (float(v) for v in gen.denormalize_range)
+        zs = rng.normal(0.0 if name == "Manly" else 0.5, 0.6 if name == "Manly" else 0.35, 6 * n)
+        zs = zs[(zs > lo + 0.05) & (zs < hi - 0.05)][:n]
+        data = np.asarray(gen.denormalize(zs), dtype=float)
+    return data[np.isfinite(data)]
+
+
+def probes_fit_skip(ctx, rng):
+    """BoxCoxShift.fit with each single parameter skipped, all skipped, none skipped (explicit start values through
+    keyword arguments); parameter-free classes; fit through Krige / vario_estimate / remove_trend_norm_mean"""
+    import gstools as gs
+    N = gn()
+    reps = 4 if ctx.tier == "thorough" else 1
+
+    def kll(lam, sh, data):
+        with Quiet():
+            return float(N.BoxCoxShift(lmbda=lam, shift=sh).kernel_loglikelihood(data))
+
+    def book(nz, res, names, fixed, what, case):
+        msgs = []
+        for k, v in fixed.items():
+            if not C.bit_equal(float(getattr(nz, k)), v):
+                msgs.append("skipped parameter %s changed from %r to %r" % (k, v, float(getattr(nz, k))))
+        if sorted(res) != sorted(names) or any(not C.bit_equal(float(res[k]), float(getattr(nz, k))) for k in names if k in res):
+            msgs.append("returned dict %r differs from the state %r" % (res, {k: float(getattr(nz, k)) for k in names}))
+        if msgs:
+            ctx.violation("probe: fit keeps skipped parameters / dict = state", "%s: %s" % (what, "; ".join(msgs)), case, key="fit-book:skipped-changed")
+        return not msgs
+
+    for rep in range(reps):
+        lam0, sh0 = float(rng.uniform(-0.4, 1.4)), float(rng.uniform(0.3, 2.0))
+        data = fit_data(rng, "BoxCoxShift", lam0, sh0, int(rng.integers(80, 200)))
+        if len(data) < 30:
+            continue
+        case = dict(kind="fit", normalizer="BoxCoxShift", lmbda=C.fhex(lam0), shift=C.fhex(sh0), data=hexl(data))
+        names = ["lmbda", "shift"]
+        # --- skip lmbda: bounded 1-D search over shift (start interval through keyword arguments)
+        lo_s = float(-data.min() + 0.05 * (data.max() - data.min()))
+        hi_s = lo_s + 5.0
+        nz = N.BoxCoxShift(lmbda=lam0, shift=sh0 + 0.3)
+        with Quiet():
+            try:
+                res = nz.fit(data, skip=["lmbda"], bounds=(lo_s, hi_s), method="bounded", bracket=None)
+            except Exception as e:
+                ctx.violation("probe: fit raised", "BoxCoxShift.fit(skip=['lmbda'], bounds=...) raised %r" % (e,), case, key="fit-raise:BoxCoxShift")
+                res = None
+        ctx.count(("probe-fit-skip", "lmbda", rep), hist=dict(probe="fit skip=[lmbda]"))
+        if res is not None and book(nz, res, names, {"lmbda": lam0}, "BoxCoxShift.fit(skip=['lmbda'])", case):
+            sfit = float(nz.shift)
+            f_fit = kll(lam0, sfit, data)
+            # the bounded scalar search returns a local maximum; the likelihood in the shift can have a second mode next to
+            # -min(data), so the brute-force comparison is over the neighbourhood of the result (and the result must beat the start)
+            grid = np.linspace(max(lo_s, sfit - 0.25), min(hi_s, sfit + 0.25), 401)
+            best = max(kll(lam0, float(g), data) for g in grid)
+            if not (lo_s <= sfit <= hi_s) or not f_fit >= best - 1e-6 * (1 + abs(best)):
+                ctx.violation("probe: fit maximises the log-likelihood", "BoxCoxShift.fit(skip=['lmbda']) -> shift=%r (kernel log-likelihood %r), "
+                              "but a shift within 0.25 of it gives %r with lmbda held at %r" % (sfit, f_fit, best, lam0),
+                              dict(case, fitted=C.fhex(sfit)), key="fit:BoxCoxShift:skip-lmbda")
+        # --- skip shift with an explicit bracket
+        nz = N.BoxCoxShift(lmbda=1.0, shift=sh0)
+        with Quiet():
+            res = nz.fit(data, skip=["shift"], bracket=(-1.0, 1.5))
+        ctx.count(("probe-fit-skip", "shift", rep), hist=dict(probe="fit skip=[shift]"))
+        if book(nz, res, names, {"shift": sh0}, "BoxCoxShift.fit(skip=['shift'], bracket=(-1, 1.5))", case):
+            lfit = float(nz.lmbda)
+            f_fit = kll(lfit, sh0, data)
+            grid = np.linspace(-3, 3, 241)
+            best = max(kll(float(g), sh0, data) for g in grid)
+            if not f_fit >= best - 1e-7 * (1 + abs(best)):
+                ctx.violation("probe: fit maximises the log-likelihood", "BoxCoxShift.fit(skip=['shift']) -> lmbda=%r (%r), grid gives %r" % (lfit, f_fit, best),
+                              dict(case, fitted=C.fhex(lfit)), key="fit:BoxCoxShift")
+        # --- everything skipped
+        nz = N.BoxCoxShift(lmbda=lam0, shift=sh0)
+        with Quiet():
+            res = nz.fit(data, skip=["lmbda", "shift"])
+        ctx.count(("probe-fit-skip", "all", rep), hist=dict(probe="fit skip=all"))
+        if res != {} or not (C.bit_equal(float(nz.lmbda), lam0) and C.bit_equal(float(nz.shift), sh0)):
+            ctx.violation("probe: fit keeps skipped parameters / dict = state", "fit with every parameter skipped returned %r, state lmbda=%r shift=%r" % (
+                res, nz.lmbda, nz.shift), case, key="fit-book:skipped-changed")
+        # --- nothing skipped: simplex search from explicit start values; must not end below its start
+        nz = N.BoxCoxShift(lmbda=0.3, shift=0.1)
+        x0 = [lam0 + 0.1, sh0 + 0.1]
+        with Quiet():
+            res = nz.fit(data, x0=x0, method="Nelder-Mead")
+        ctx.count(("probe-fit-skip", "none", rep), hist=dict(probe="fit skip=[]"))
+        if book(nz, res, names, {}, "BoxCoxShift.fit(x0=..., method='Nelder-Mead')", case):
+            f_fit, f_0 = kll(float(nz.lmbda), float(nz.shift), data), kll(x0[0], x0[1], data)
+            xo = np.atleast_1d(nz._opti.x)
+            if not (C.bit_equal(xo, [float(nz.lmbda), float(nz.shift)]) and f_fit >= f_0 - 1e-9 * (1 + abs(f_0))):
+                ctx.violation("probe: fit maximises the log-likelihood", "BoxCoxShift.fit(x0=%r) -> (lmbda, shift)=(%r, %r) optimiser %r: "
+                              "kernel log-likelihood %r, at the start values %r" % (x0, nz.lmbda, nz.shift, xo.tolist(), f_fit, f_0),
+                              case, key="fit:BoxCoxShift:2d")
+    # --- parameter-free classes
+    for cls in (N.LogNormal, N.Normalizer):
+        with Quiet():
+            res = cls().fit(np.array([1.0, 2.0, 3.5]))
+        ctx.count(("probe-fit-skip", cls.__name__), hist=dict(probe="fit without parameters"))
+        if res != {}:
+            ctx.violation("probe: fit keeps skipped parameters / dict = state", "%s.fit returned %r" % (cls.__name__, res),
+                          dict(kind="fit", normalizer=cls.__name__), key="fit-book:skipped-changed")
+    # --- fit through the public users equals the direct call on the detrended data
+    for rep in range(reps):
+        for cls in (N.BoxCox, N.YeoJohnson, N.BoxCoxShift):
+            dim = 2
+            npt = int(rng.integers(25, 60))
+            pos = [rng.uniform(0, 10, npt) for _ in range(dim)]
+            trend = lambda x, y: 0.05 * x + 0.5            # noqa: E731
+            val = np.exp(rng.normal(0.3, 0.5, npt)) + 0.2 + trend(*pos)
+            det = val - trend(*pos)
+            kw = dict(shift=0.4) if cls is N.BoxCoxShift else {}
+            desc = dict(kind="fit-users", normalizer=cls.__name__, pos=[hexl(p) for p in pos], val=hexl(val))
+            with Quiet():
+                try:
+                    direct = cls(**kw)
+                    dres = direct.fit(det.copy())
+                    kr = gs.krige.Ordinary(gs.Exponential(dim=2, len_scale=3.0), pos, val.copy(), normalizer=cls(**kw), trend=trend, fit_normalizer=True)
+                    _, _, vn = gs.vario_estimate(pos, val.copy(), np.linspace(0, 5, 6), normalizer=cls(**kw), trend=trend, fit_normalizer=True)
+                    _, rn = gs.normalizer.remove_trend_norm_mean(pos, val.copy(), normalizer=cls(**kw), trend=trend, fit_normalizer=True)
+                except Exception as e:
+                    ctx.violation("probe: fit through public users raised", "%s: %r" % (cls.__name__, e), desc, key="fit-users-raise")
+                    continue
+            ctx.count(("probe-fit-users", cls.__name__, rep), hist=dict(probe="fit via Krige/vario_estimate/remove_trend_norm_mean"))
+            for who, nzu in (("Krige(fit_normalizer=True)", kr.normalizer), ("vario_estimate(fit_normalizer=True)", vn),
+                             ("remove_trend_norm_mean(fit_normalizer=True)", rn)):
+                got = {k: float(getattr(nzu, k)) for k in sorted(cls.default_parameter)}
+                ref = {k: float(v) for k, v in dres.items()}
+                if sorted(got) != sorted(ref) or any(not C.bit_equal(got[k], ref[k]) for k in ref):
+                    ctx.violation("probe: fit through public users = direct fit", "%s with %s: parameters %r, direct fit on the detrended data %r" % (
+                        who, cls.__name__, got, ref), desc, key="fit-users:%s" % who.split("(")[0])
+
+
 # ------------------------------------------------------------------------------------------- pipeline
 
 def eval_on(fv, pos_pts, dim, value_type, drv):
@@ -769,11 +1013,19 @@ def pipeline(ctx, drv, rng):
                     out = np.array(o(pos, field=raw.copy(), mesh_type=mesh))
                 means = eval_on(cs["mean"], pts, dim, vt, drv)
                 trends = eval_on(cs["trend"], pts, dim, vt, drv)
-                # implementation, functional form, applied to a copy
-                out2 = np.array(apply_mean_norm_trend(pos, raw.copy(), mean=cs["mean"], normalizer=nz, trend=cs["trend"], mesh_type=mesh,
-                                                      value_type=vt, check_shape=False))
-                back = np.array(remove_trend_norm_mean(pos, out.copy(), mean=cs["mean"], normalizer=nz, trend=cs["trend"], mesh_type=mesh,
-                                                       value_type=vt, check_shape=False))
+                # implementation, functional form, applied twice to the same caller-held array: same result, array untouched
+                held = raw.copy()
+                pk = dict(mean=cs["mean"], normalizer=nz, trend=cs["trend"], mesh_type=mesh, value_type=vt, check_shape=False)
+                out2 = np.array(apply_mean_norm_trend(pos, held, **pk))
+                out3 = np.array(apply_mean_norm_trend(pos, held, **pk))
+                held_o = out.copy()
+                back = np.array(remove_trend_norm_mean(pos, held_o, **pk))
+                back3 = np.array(remove_trend_norm_mean(pos, held_o, **pk))
+                if not (C.bit_equal(out2, out3) and C.bit_equal(held, raw) and C.bit_equal(back, back3) and C.bit_equal(held_o, out)):
+                    which = "apply_mean_norm_trend" if not (C.bit_equal(out2, out3) and C.bit_equal(held, raw)) else "remove_trend_norm_mean"
+                    ctx.violation("probe: pipeline called twice on the same array", "%s gives a different result on its second call with the same "
+                                  "caller-held array (the first call changed the array): the output is not a function of the raw field" % which,
+                                  dict(desc, raw=hexl(raw), first=hexl(out2), second=hexl(out3), held_after=hexl(held)), key="pipeline-twice:%s" % which)
                 dz = np.asarray(nz.derivative(out - trends.reshape(out.shape)), dtype=float)
         except Exception as e:
             ctx.violation("pipeline: implementation raised", "%s with %s raised %r" % (cs["obj"], name, e), desc, key="pipeline-raise:%s" % cs["obj"])
@@ -900,7 +1152,7 @@ def run(ctx, only=None):
         "numpy ufuncs (power, exp, log, expm1, log1p, isclose), scipy.optimize.minimize_scalar: modelled / probed, not verified",
     ]
     ctx.not_proved = [
-        "that Normalizer.fit returns the maximiser of the log-likelihood (scipy Brent): probed against a brute-force lmbda grid only",
+        "that the optimiser inside Normalizer.fit finds the maximiser of the log-likelihood (scipy Brent/BFGS are oracles; the bookkeeping around them is proved): probed by brute force with the skipped parameters held fixed",
         "floating-point error of the coded formulas (theorems are over R; probes bound it with the cancellation scale)",
         "infinite data: modelled (isinf test) and compared, but the theorems at R have no infinities",
         "eval_func / mesh handling of callables: exercised through Field, SRF, Krige, CondSRF outputs, modelled only as position-wise values",
@@ -908,7 +1160,8 @@ def run(ctx, only=None):
     ctx.tie["normalizer/methods.py: _normalize/_denormalize/_derivative, *_range (6 classes + base)"] = "hand model + correspondence"
     ctx.tie["normalizer/base.py: _check_input, normalize, denormalize, derivative, (kernel_)loglikelihood"] = "hand model + correspondence"
     ctx.tie["normalizer/tools.py: apply_mean_norm_trend / remove_trend_norm_mean; field/base.py post_field; krige/base.py _krige_cond"] = "hand model + correspondence"
-    ctx.tie["normalizer/base.py: fit"] = "probed only (brute-force maximisation)"
+    ctx.tie["normalizer/base.py: fit (bookkeeping: free/skipped names, write-back, returned dict)"] = "hand model fit_book + correspondence (recorded and arbitrary optimisers)"
+    ctx.tie["normalizer/base.py: fit (optimum)"] = "probed only (brute-force maximisation with the skipped parameters held fixed)"
     proofs_ok = ctx.proofs("props/C18.v")
     tie_broken = []
     ok, out = C.build_driver("c18")
@@ -925,10 +1178,12 @@ def run(ctx, only=None):
             nbad = corr_scalar(ctx, drv, rng, cfgs)
             corr_loglik(ctx, drv, rng, [c for c in cfgs if lam_class(c[1]) != "gt2" or c[1] <= 3])
             pipeline(ctx, drv, rng)
+            corr_fit(ctx, drv, rng)
             ctx.notes.append("model calls: %d; scalar correspondence disagreements: %d" % (drv.calls, nbad))
         sub = cfgs if ctx.tier == "thorough" else [c for i, c in enumerate(cfgs) if c[1] in LAMBDAS[:14] or i % 3 == 0]
         probes_scalar(ctx, rng, sub)
         probes_likelihood(ctx, rng)
+        probes_fit_skip(ctx, rng)
     finally:
         if drv:
             drv.close()
